@@ -835,21 +835,8 @@ open Iodine.Client
 def dnSeqOf (n : List Nat) : Nat := digit32 (n.getD 2 0) % 8
 def dnFragOf (n : List Nat) : Nat := digit32 (n.getD 3 0) / 2
 
-/-- **hop_lossless_up**.  For a client with a packet in flight (`outRest` = `outpkt.data[offset .. len)` not empty),
-a hostname limit 100..255 and a legal tunnel domain: `send_chunk` sends a query whose name is a legal host name within
-the limit, ending in the tunnel domain (C08), and from whose data part `inb` (what `handle_null_request` copies: the
-characters in front of the domain, found by `query_datalen`: C17) the server reads back EXACTLY
-* the user-id character,
-* the header fields `(seqno & 7, fragment & 15, last)` of `outpkt` and the ack fields `(seqno & 7, fragment & 15)` of
-  `inpkt` — for ALL values of these fields (round trip of the three Base32 characters of `chunkHeader` through the
-  `b32_8to5` shifts and masks of the data handler),
-* and, under the same codec, the bytes `outpkt.data[offset .. offset + sentlen)`: what `dataStore` appends is what
-  the client took out of its buffer, and `sentlen ≥ 1`, so every acknowledged fragment makes progress. -/
-theorem hop_lossless_up (c : Cli) (L : Nat) (hmax : c.hostnameMaxlen = (L : Int)) (hL : 100 ≤ L ∧ L ≤ 255)
-    (htd : 3 ≤ c.topdomain.length ∧ c.topdomain.length ≤ 128 ∧ c.topdomain.length + 24 ≤ L)
-    (hlegal : Encoding.legalAux 0 c.topdomain = true) (huc : c.useridChar ≠ 46)
-    (hne : outRest c.outpkt ≠ []) (hbytes : Codec.Bytes (outRest c.outpkt)) :
-    ∃ (name : List Nat) (c' : Cli),
+/-- what `hop_lossless_up` says about the name `name` and the state `c'` handed to `send_query` -/
+def HopOk (c : Cli) (L : Nat) (name : List Nat) (c' : Cli) : Prop :=
       sendChunk c = sendQuery c' name ∧ c'.inpkt = c.inpkt ∧
       c'.outpkt = { c.outpkt with sentlen := c'.outpkt.sentlen } ∧
       1 ≤ c'.outpkt.sentlen ∧ c'.outpkt.sentlen ≤ (outRest c.outpkt).length ∧
@@ -860,7 +847,20 @@ theorem hop_lossless_up (c : Cli) (L : Nat) (hmax : c.hostnameMaxlen = (L : Int)
        lastOf inb = (c'.outpkt.sentlen == c.outpkt.len - c.outpkt.offset) ∧
        dnSeqOf inb = maskI c.inpkt.seqno 8 ∧ dnFragOf inb = maskI c.inpkt.fragment 16 ∧
        Encoding.unpackData c.dataenc.codec 65536 (inb.drop 5) = (outRest c.outpkt).take c'.outpkt.sentlen ∧
-       (outRest c.outpkt).take c'.outpkt.sentlen = (c.outpkt.data.drop c.outpkt.offset).take c'.outpkt.sentlen) := by
+       (outRest c.outpkt).take c'.outpkt.sentlen = (c.outpkt.data.drop c.outpkt.offset).take c'.outpkt.sentlen)
+
+/-- the client state `send_chunk` hands to `send_query`: `sentlen` stored, data CMC stepped -/
+def chunkSent (c : Cli) : Cli :=
+  { c with outpkt := { c.outpkt with sentlen := (C01L.chunkBuilt c).used },
+           datacmc := if c.datacmc + 1 ≥ 36 then 0 else c.datacmc + 1 }
+
+/-- `hop_lossless_up` with the witnesses spelled out: the name is `C01L.chunkName c`, the state `chunkSent c` -/
+theorem hop_lossless_up_at (c : Cli) (L : Nat) (hmax : c.hostnameMaxlen = (L : Int)) (hL : 100 ≤ L ∧ L ≤ 255)
+    (htd : 3 ≤ c.topdomain.length ∧ c.topdomain.length ≤ 128 ∧ c.topdomain.length + 24 ≤ L)
+    (hlegal : Encoding.legalAux 0 c.topdomain = true) (huc : c.useridChar ≠ 46)
+    (hne : outRest c.outpkt ≠ []) (hbytes : Codec.Bytes (outRest c.outpkt)) :
+    HopOk c L (C01L.chunkName c) (chunkSent c) := by
+  unfold HopOk chunkSent
   -- C08 for the header `send_chunk` writes
   have hwf : Codec.WF c.dataenc.codec ∧ ∀ ch ∈ c.dataenc.codec.tbl, ch ≠ Encoding.DOT := by
     cases c.dataenc
@@ -879,7 +879,7 @@ theorem hop_lossless_up (c : Cli) (L : Nat) (hmax : c.hostnameMaxlen = (L : Int)
     rw [hb]
   have hname : C01L.chunkName c = chunkHeader c (C01L.chunkLast c) ++ b.name := by
     unfold C01L.chunkName; rw [hbuilt]
-  refine ⟨C01L.chunkName c, _, C01L.sendChunk_eq c, rfl, rfl, ?_, ?_, ?_, ?_, ?_, ?_⟩
+  refine ⟨C01L.sendChunk_eq c, rfl, rfl, ?_, ?_, ?_, ?_, ?_, ?_⟩
   · show 1 ≤ (C01L.chunkBuilt c).used; rw [hbuilt]; exact G.used.1
   · show (C01L.chunkBuilt c).used ≤ _; rw [hbuilt]; exact G.used.2
   · rw [hname]; exact G.legal
@@ -932,6 +932,34 @@ theorem hop_lossless_up (c : Cli) (L : Nat) (hmax : c.hostnameMaxlen = (L : Int)
       unfold outRest at this
       rw [List.length_drop, List.length_take] at this
       omega
+
+/-- **hop_lossless_up**.  For a client with a packet in flight (`outRest` = `outpkt.data[offset .. len)` not empty),
+a hostname limit 100..255 and a legal tunnel domain: `send_chunk` sends a query whose name is a legal host name within
+the limit, ending in the tunnel domain (C08), and from whose data part `inb` (what `handle_null_request` copies: the
+characters in front of the domain, found by `query_datalen`: C17) the server reads back EXACTLY
+* the user-id character,
+* the header fields `(seqno & 7, fragment & 15, last)` of `outpkt` and the ack fields `(seqno & 7, fragment & 15)` of
+  `inpkt` — for ALL values of these fields (round trip of the three Base32 characters of `chunkHeader` through the
+  `b32_8to5` shifts and masks of the data handler),
+* and, under the same codec, the bytes `outpkt.data[offset .. offset + sentlen)`: what `dataStore` appends is what
+  the client took out of its buffer, and `sentlen ≥ 1`, so every acknowledged fragment makes progress. -/
+theorem hop_lossless_up (c : Cli) (L : Nat) (hmax : c.hostnameMaxlen = (L : Int)) (hL : 100 ≤ L ∧ L ≤ 255)
+    (htd : 3 ≤ c.topdomain.length ∧ c.topdomain.length ≤ 128 ∧ c.topdomain.length + 24 ≤ L)
+    (hlegal : Encoding.legalAux 0 c.topdomain = true) (huc : c.useridChar ≠ 46)
+    (hne : outRest c.outpkt ≠ []) (hbytes : Codec.Bytes (outRest c.outpkt)) :
+    ∃ (name : List Nat) (c' : Cli),
+      sendChunk c = sendQuery c' name ∧ c'.inpkt = c.inpkt ∧
+      c'.outpkt = { c.outpkt with sentlen := c'.outpkt.sentlen } ∧
+      1 ≤ c'.outpkt.sentlen ∧ c'.outpkt.sentlen ≤ (outRest c.outpkt).length ∧
+      Encoding.legalAux 0 name = true ∧ name.length + 2 ≤ L ∧ (∃ pre, name = pre ++ [46] ++ c.topdomain) ∧
+      (let inb := name.take (min (name.length - c.topdomain.length) 512)
+       inb.getD 0 0 = c.useridChar ∧
+       upSeqOf inb = maskI c.outpkt.seqno 8 ∧ upFragOf inb = maskI c.outpkt.fragment 16 ∧
+       lastOf inb = (c'.outpkt.sentlen == c.outpkt.len - c.outpkt.offset) ∧
+       dnSeqOf inb = maskI c.inpkt.seqno 8 ∧ dnFragOf inb = maskI c.inpkt.fragment 16 ∧
+       Encoding.unpackData c.dataenc.codec 65536 (inb.drop 5) = (outRest c.outpkt).take c'.outpkt.sentlen ∧
+       (outRest c.outpkt).take c'.outpkt.sentlen = (c.outpkt.data.drop c.outpkt.offset).take c'.outpkt.sentlen) := by
+  exact ⟨_, _, hop_lossless_up_at c L hmax hL htd hlegal huc hne hbytes⟩
 
 /-- a client with the 9-byte image of `Ex.fs` as `outpkt` (upstream seqno 1, nothing sent yet), hostname limit 255 -/
 def Ex.c1 : Cli := { Ex.c0 with outpkt := ⟨9, 0, 0, [0x5a, 0, 0, 8, 0, 69, 1, 2, 3], 1, 0⟩, hostnameMaxlen := 255 }
